@@ -293,6 +293,10 @@ func runC08(c *Ctx) {
 	r.Assume("the fake backend, like Cassandra, compresses every non-empty response body once compression was negotiated, ERROR frames included, and rejects frames whose version differs from the connection's")
 	r.Require("unprepared_handled", "executes_ok", "fresh_prepare_executes", "pipelined_reprepare_cases")
 	_ = model.Rows
+	if c.Replay != nil && c.Replay["kind"] == "c08-pipelined-reprepare-lost" {
+		c08PipelinedReprepareLost(c, int(c.Replay["idx"].(float64)))
+		return
+	}
 	var cases []c08Case
 	for _, hosts := range []int{2, 3} {
 		for _, sub := range subsets(hosts) {
@@ -532,7 +536,7 @@ func c08PipelinedReprepareLost(c *Ctx, idx int) {
 		case ri.Kind == "Rows" && ri.Tok == q.tok:
 		case !idem && how == "drop" && isConnLostErr(ri):
 		case ri.ErrCode == primitive.ErrorCodeUnprepared:
-			r.Violate(mon.Violation{Signature: "C08/unprepared-reached-client/pipelined-reprepare-" + how, Detail: key + ": client received UNPREPARED", Scenario: scenario})
+			r.Violate(mon.Violation{Signature: "C08/unprepared-reached-client/pipelined-reprepare-" + how, Detail: fmt.Sprintf("%s: client received UNPREPARED for request %s (attempts: %s)", key, q.tok, describe(Traces(bed.Log.Snapshot()[mark:])[q.tok])), Scenario: scenario, Witness: historyOf(bed.Log.Snapshot()[mark:], cl.ID, q.st, q.tok)})
 		default:
 			bad++
 			sample = fmt.Sprintf("%s %q", ri.Kind, ri.ErrMsg)
